@@ -1390,6 +1390,32 @@ func runC09(o *out, thorough bool, r *rng, _ []string) map[string]interface{} {
 		}
 		o.count("ip-lengths-with-a-valid-beginning")
 	}
+	// the attribute list holds a FINGERPRINT and the caller has lowered the Length field (to sign the message again
+	// without its last attributes), or filled the list of a message that is not encoded yet: MESSAGE-INTEGRITY is
+	// still refused, and the message stays as it was
+	for i := 0; i < 40; i++ {
+		key := r.bytes(1 + r.intn(20))
+		m := new(stun.Message)
+		if i%4 == 3 {
+			m.Attributes = append(m.Attributes, stun.RawAttribute{Type: stun.AttrFingerprint, Length: 4, Value: make([]byte, 4)})
+		} else {
+			ss := []stun.Setter{stun.NewType(1, 0), stun.NewTransactionIDSetter([12]byte{byte(i)})}
+			for k := 0; k < i%3; k++ {
+				ss = append(ss, stun.RawAttribute{Type: stun.AttrType(0x8030 + k), Value: r.bytes(4 * (1 + r.intn(3)))})
+			}
+			ss = append(ss, stun.Username(r.bytes(4)), stun.Fingerprint)
+			if m.Build(ss...) != nil {
+				continue
+			}
+			m.Length -= uint32([]int{8, 16, 4, 0}[i%4])
+		}
+		before := fmt.Sprint(serMsg(m))
+		err := stun.MessageIntegrity(key).AddTo(m)
+		if !errors.Is(err, stun.ErrFingerprintBeforeIntegrity) || fmt.Sprint(serMsg(m)) != before {
+			o.failFor("C09", "integrity-after-fingerprint-accepted", fmt.Sprintf("x a message whose attribute list holds FINGERPRINT and whose Length field the caller set to %d: MessageIntegrity.AddTo returned %v, message changed: %v", m.Length, err, fmt.Sprint(serMsg(m)) != before))
+		}
+		o.count("fingerprint-in-the-list-length-lowered")
+	}
 	// integrity after fingerprint (and before), Build stopping at the first failing setter
 	n := 600
 	if thorough {
